@@ -689,37 +689,92 @@ func runC45(c *Ctx) {
 func runC50(c *Ctx) {
 	gn := cliFn(c, "Client", "getConnectedNodes")
 	nap := 0
+	// the result slice: the named result, or the local every value-returning exit returns
+	var resVar *types.Var
+	if rl := gn.Type.Results; rl != nil && len(rl.List) == 1 && len(rl.List[0].Names) == 1 {
+		resVar, _ = gn.Info.Defs[rl.List[0].Names[0]].(*types.Var)
+	}
+	for _, r := range gn.Returns() {
+		if len(r.Results) == 1 && resVar == nil {
+			resVar = gn.varOf(r.Results[0])
+		}
+	}
+	isRes := func(x ast.Expr) bool { return resVar != nil && gn.enclosing(x).varOf(x) == resVar }
+	lenBelow3 := func(g *Fn, e ast.Expr) bool {
+		be, ok := ast.Unparen(e).(*ast.BinaryExpr)
+		if !ok {
+			return false
+		}
+		v, _ := g.ConstVal(be.Y)
+		return be.Op == token.LSS && v == "3" && isLenOf(g, be.X, isRes)
+	}
 	for _, call := range gn.Calls(true, func(call *ast.CallExpr) bool {
 		id, ok := call.Fun.(*ast.Ident)
 		return ok && id.Name == "append"
 	}) {
 		g := gn.enclosing(call)
-		if types_ExprString(call.Args[0]) != "nodes" {
+		if !isRes(call.Args[0]) {
 			continue
 		}
 		nap++
 		ok := g.FactsAt(call).Cmp(func(e, tag ast.Expr, truth bool, fa *Fact) bool {
-			be, ok := e.(*ast.BinaryExpr)
-			if !ok {
-				return false
-			}
-			v, _ := g.ConstVal(be.Y)
-			return truth && be.Op == token.LSS && v == "3" && isLenOf(g, be.X, func(x ast.Expr) bool { return types_ExprString(x) == "nodes" })
+			return truth && lenBelow3(g, e)
 		})
+		if !ok && g != gn && len(call.Args) == 2 && !call.Ellipsis.IsValid() {
+			// grow-then-stop: the iteration callback adds one entry per invocation
+			// (the only append, outside any loop) and every exit after it answers
+			// "continue" with the very test len(result) < 3 (or stops), so the
+			// iteration ends with the third entry
+			one := true
+			for _, nd := range shallowNodes(g.Body) {
+				switch x := nd.(type) {
+				case *ast.ForStmt, *ast.RangeStmt:
+					one = false
+				case *ast.CallExpr:
+					if id, isID := x.Fun.(*ast.Ident); isID && id.Name == "append" && x != call {
+						one = false
+					}
+				}
+			}
+			rets := g.Returns()
+			for _, r := range rets {
+				if len(r.Results) != 1 {
+					one = false
+					continue
+				}
+				if v, isConst := g.ConstVal(r.Results[0]); isConst && v == "false" {
+					continue
+				}
+				if !lenBelow3(g, r.Results[0]) {
+					one = false
+				}
+			}
+			isRangeCB := false
+			for _, rc := range methodCalls(gn, false, "Range") {
+				if len(rc.Args) == 1 && ast.Unparen(rc.Args[0]) == ast.Expr(g.Lit) {
+					isRangeCB = true
+				}
+			}
+			ok = one && len(rets) > 0 && isRangeCB
+		}
 		c.Ob("bound", "getConnectedNodes#append-under-len<NumRedundantLinks", call.Pos(), ok, "the result grows only while it has fewer than NumRedundantLinks (3) entries")
 	}
 	c.Floor("result append sites", nap, 1)
 	// comparator
 	var cmpLit *ast.FuncLit
 	var sortCall *ast.CallExpr
-	for _, call := range gn.CallsTo(false, "sort.SliceStable", "sort.Slice") {
+	// (sort.Slice*: less over positions; slices.Sort*Func: three-way over elements, of
+	// which the sort only ever asks "negative?")
+	threeWay := false
+	for _, call := range gn.CallsTo(false, "sort.SliceStable", "sort.Slice", "slices.SortStableFunc", "slices.SortFunc") {
 		sortCall = call
 		cmpLit, _ = call.Args[1].(*ast.FuncLit)
+		threeWay = strings.HasPrefix(gn.CallKey(call), "slices.")
 	}
 	if cmpLit == nil {
 		c.Failf("getConnectedNodes: sort comparator not found (undecided)")
 	}
-	c.Ob("comparator", "getConnectedNodes#sorts-the-result", sortCall.Pos(), types_ExprString(sortCall.Args[0]) == "nodes", "the slice sorted is the result slice")
+	c.Ob("comparator", "getConnectedNodes#sorts-the-result", sortCall.Pos(), isRes(sortCall.Args[0]), "the slice sorted is the result slice")
 	g := gn.Closure(cmpLit)
 	// sort.Slice permutes only the slice it is given: a comparator that uses its positions
 	// i, j to index anything else reads data of the wrong elements after the first swap
@@ -738,7 +793,9 @@ func runC50(c *Ctx) {
 		c.Ob("comparator", "getConnectedNodes#positions-index-only-the-sorted-slice", ix.Pos(), sortedObj != nil && g.ObjOf(ix.X) == sortedObj, "inside the comparator the positions i, j index only the slice being sorted (sort.SliceStable swaps that slice alone; a parallel slice indexed by position goes stale at the first swap); found "+g.Str(ix))
 		return true
 	})
-	c.Floor("comparator position uses", npos, 2)
+	if !threeWay {
+		c.Floor("comparator position uses", npos, 2)
+	}
 	// the comparator is executed on the evaluator for every valuation: the sorted slice holds
 	// two opaque nodes, the measurement table is a map with an entry for a node exactly when
 	// it is measured, keys are produced by whatever one-argument key function the code
@@ -782,6 +839,13 @@ func runC50(c *Ctx) {
 		}
 		env.vars[tableVar] = mapVal{entries: entries, zero: big.NewInt(0)}
 		env.ext = func(f *Fn, call *ast.CallExpr, recv Val, args []Val) (Val, bool) {
+			if len(args) == 2 && f.CallKey(call) == "cmp.Compare" {
+				a, aok := args[0].(*big.Int)
+				b, bok := args[1].(*big.Int)
+				if aok && bok {
+					return big.NewInt(int64(a.Cmp(b))), true
+				}
+			}
 			if len(args) != 1 {
 				return nil, false
 			}
@@ -798,7 +862,11 @@ func runC50(c *Ctx) {
 		i := 0
 		for _, fld := range cmpLit.Type.Params.List {
 			for _, nm := range fld.Names {
-				env.vars[g.Info.Defs[nm]] = big.NewInt(int64(i))
+				if threeWay {
+					env.vars[g.Info.Defs[nm]] = objVal{id: big.NewInt(int64(i + 1))}
+				} else {
+					env.vars[g.Info.Defs[nm]] = big.NewInt(int64(i))
+				}
 				i++
 			}
 		}
@@ -816,6 +884,13 @@ func runC50(c *Ctx) {
 		}()
 		if res == nil || len(res.vals) != 1 {
 			c.Failf("gateway comparator: no return reached")
+		}
+		if threeWay {
+			v, isInt := res.vals[0].(*big.Int)
+			if !isInt {
+				c.Failf("gateway comparator: three-way result not evaluable")
+			}
+			return v.Sign() < 0
 		}
 		b, _ := res.vals[0].(bool)
 		return b
@@ -896,7 +971,7 @@ func runC50(c *Ctx) {
 	}
 	for _, r := range gn.Returns() {
 		if len(r.Results) == 1 {
-			c.Ob("bound", "getConnectedNodes#returns-the-bounded-slice", r.Pos(), types_ExprString(r.Results[0]) == "nodes", "the returned slice is the bounded, sorted one")
+			c.Ob("bound", "getConnectedNodes#returns-the-bounded-slice", r.Pos(), isRes(r.Results[0]), "the returned slice is the bounded, sorted one")
 		}
 	}
 }
